@@ -100,6 +100,12 @@ class RandomVectorizedStrategy(vb.VectorizedStrategy[None]):
       cat_data = tfd.Categorical(logits=self._categorical_logits).sample(
           (self._suggestion_batch_size, n_parallel), seed=cat_seed
       )
+      # Fill the padded categorical dimensions (masked out by the optimizer).
+      n_padded = (
+          self.n_feature_dimensions_with_padding.categorical
+          - cat_data.shape[-1]
+      )
+      cat_data = jnp.pad(cat_data, ((0, 0), (0, 0), (0, n_padded)))
     return vb.VectorizedOptimizerInput(cont_data, cat_data)
 
   def suggestion_batch_size(self) -> int:
